@@ -4,7 +4,7 @@ inside one oracle binary (DESIGN 3.5).
 A case is a dict:
   id      : short identifier (letters/digits)
   files   : {relative path inside the case dir: content}      (hand-written sources)
-  runs    : [ {"args": [...], "cwd": "rel dir (default .)"} ]  shoot invocations, in order
+  runs    : [ {"args": [...], "cwd": "rel dir (default .)", "env": {extra environment, e.g. GOFILE}} ]  shoot invocations, in order
   oracle  : {"rel dir": go source of zz_oracle.go}  -- must define  func VerifObserve(emit func(string, string))
             (written AFTER the shoot runs, so shoot never analyses it)
 Results per case id:
@@ -80,7 +80,11 @@ class Batch:
         for r in case.get("runs", []):
             cwd = os.path.join(d, r.get("cwd", "."))
             try:
-                p = core.run([self.ctx.shoot()] + r["args"], cwd=cwd, timeout=120)
+                env = None
+                if r.get("env"):
+                    env = dict(core.goenv())
+                    env.update(r["env"])
+                p = core.run([self.ctx.shoot()] + r["args"], cwd=cwd, timeout=120, env=env)
                 runs.append({"rc": p.returncode, "stdout": p.stdout, "stderr": p.stderr, "args": r["args"]})
             except subprocess.TimeoutExpired:
                 runs.append({"rc": -9, "stdout": "", "stderr": "timeout", "args": r["args"]})
